@@ -30,6 +30,9 @@ pub enum Intent {
     Bulk { n: u16 },
     /// like Set, but the value alone exceeds the one-megabyte batching threshold
     SetHuge { t: u8, p: u8, ts: i64 },
+    /// an operation on a task that exists nowhere (as a stale TaskData handle can produce): it is
+    /// invalid, must be ignored by everybody and must not disturb anything else
+    Ghost { del: bool, ts: i64 },
     /// set (or remove) an arbitrary key to an explicit value through the TaskData API
     /// (status, modified, dep_…, tag_… for C15/C19/C20); not tracked by the conservation oracle
     Key { t: u8, key: String, val: Option<String>, ts: i64 },
@@ -265,6 +268,16 @@ pub(crate) async fn build_ops(n: usize, a: usize, replica: &mut Replica<SimStora
                 ops.push(Operation::UndoPoint);
                 continue;
             }
+            Intent::Ghost { del, ts } => {
+                use taskchampion::chrono::{TimeZone, Utc};
+                let uuid = task_uuid(250);
+                if *del {
+                    ops.push(Operation::Delete { uuid, old_task: Default::default() });
+                } else {
+                    ops.push(Operation::Update { uuid, property: "p0".into(), old_value: None, value: Some("ghost".into()), timestamp: Utc.timestamp_opt(EPOCH0 + ts, 0).unwrap() });
+                }
+                continue;
+            }
             Intent::Bulk { n: count } => {
                 // many new tasks at once (only tasks that do not exist yet)
                 for j in 0..*count as u32 {
@@ -329,7 +342,7 @@ pub(crate) async fn build_ops(n: usize, a: usize, replica: &mut Replica<SimStora
                     td.update(key.clone(), val.clone(), &mut ops);
                 }
             }
-            Intent::UndoPoint | Intent::Bulk { .. } => unreachable!(),
+            Intent::UndoPoint | Intent::Bulk { .. } | Intent::Ghost { .. } => unreachable!(),
         }
     }
     interpose::set_now_ns(now_ns);
@@ -688,7 +701,7 @@ fn do_foreign(n: usize, a: usize, w: &Rc<RefCell<World>>, intents: &[Intent], fm
                     parts.push(format!("{{\"Update\":{}{{{}}}{}}}", ws(&mut rng), fields.join(&format!(",{}", ws(&mut rng))), ws(&mut rng)));
                 }
             }
-            Intent::UndoPoint | Intent::Bulk { .. } | Intent::Key { .. } | Intent::SetHuge { .. } => {}
+            Intent::UndoPoint | Intent::Bulk { .. } | Intent::Key { .. } | Intent::SetHuge { .. } | Intent::Ghost { .. } => {}
         }
     }
     if parts.is_empty() {
@@ -1752,7 +1765,7 @@ pub fn gen_c04(seed: u64, i: u64, thorough: bool) -> Value {
     let s = mix(seed, "C04", i);
     let mut rng = Rng::new(s);
     let nodes = *rng.pick(&[1usize, 2, 2, 2, 3, 3]);
-    let mut g = GenCfg { tasks: 1 + rng.below(3) as u8, props: 1 + rng.below(3) as u8, ts_policy: rng.below(4) as u8, ts_counter: 0 };
+    let mut g = GenCfg { ghosts: true, tasks: 1 + rng.below(3) as u8, props: 1 + rng.below(3) as u8, ts_policy: rng.below(4) as u8, ts_counter: 0 };
     let big_run = rng.chance(1, if thorough { 40 } else { 120 });
     let v = rng.usize_below(nodes);
     let mut scripts = Vec::new();
@@ -1809,7 +1822,7 @@ pub fn gen_c05(seed: u64, i: u64, thorough: bool) -> Value {
     let s = mix(seed, "C05", i);
     let mut rng = Rng::new(s);
     let nodes = *rng.pick(&[1usize, 1, 2]);
-    let mut g = GenCfg { tasks: 1 + rng.below(3) as u8, props: 1 + rng.below(3) as u8, ts_policy: rng.below(4) as u8, ts_counter: 0 };
+    let mut g = GenCfg { ghosts: false, tasks: 1 + rng.below(3) as u8, props: 1 + rng.below(3) as u8, ts_policy: rng.below(4) as u8, ts_counter: 0 };
     let mut scripts = Vec::new();
     for n in 0..nodes {
         let len = rng.usize_below(6);
@@ -1859,7 +1872,7 @@ pub fn gen_c07(seed: u64, i: u64, thorough: bool) -> Value {
     let s = mix(seed, "C07", i);
     let mut rng = Rng::new(s);
     let nodes = *rng.pick(&[1usize, 1, 2, 2, 3]);
-    let mut g = GenCfg { tasks: 1 + rng.below(3) as u8, props: 1 + rng.below(3) as u8, ts_policy: rng.below(4) as u8, ts_counter: 0 };
+    let mut g = GenCfg { ghosts: false, tasks: 1 + rng.below(3) as u8, props: 1 + rng.below(3) as u8, ts_policy: rng.below(4) as u8, ts_counter: 0 };
     let mut scripts = Vec::new();
     for _ in 0..nodes {
         let len = 2 + rng.usize_below(12);
@@ -1911,7 +1924,7 @@ pub fn gen_c12(seed: u64, i: u64, thorough: bool) -> Value {
     let early = *rng.pick(&[1usize, 2, 2, 3]);
     let late = *rng.pick(&[0usize, 1, 1, 2]);
     let nodes = early + late;
-    let mut g = GenCfg { tasks: 1 + rng.below(4) as u8, props: 1 + rng.below(4) as u8, ts_policy: rng.below(4) as u8, ts_counter: 0 };
+    let mut g = GenCfg { ghosts: true, tasks: 1 + rng.below(4) as u8, props: 1 + rng.below(4) as u8, ts_policy: rng.below(4) as u8, ts_counter: 0 };
     let big_run = rng.chance(1, if thorough { 25 } else { 60 });
     let bulk_run = thorough && rng.chance(1, 200);
     let mut scripts = Vec::new();
@@ -1977,7 +1990,7 @@ pub fn gen_c14(seed: u64, i: u64, _thorough: bool) -> Value {
     let s = mix(seed, "C14", i);
     let mut rng = Rng::new(s);
     let nodes = *rng.pick(&[1usize, 2, 2, 3]);
-    let mut g = GenCfg { tasks: 1 + rng.below(4) as u8, props: 1 + rng.below(5) as u8, ts_policy: rng.below(4) as u8, ts_counter: 0 };
+    let mut g = GenCfg { ghosts: false, tasks: 1 + rng.below(4) as u8, props: 1 + rng.below(5) as u8, ts_policy: rng.below(4) as u8, ts_counter: 0 };
     let mut scripts = Vec::new();
     for _ in 0..nodes {
         let len = 2 + rng.usize_below(10);
@@ -2050,7 +2063,7 @@ pub fn gen_c15(seed: u64, i: u64, thorough: bool) -> Value {
     let s = mix(seed, "C15", i);
     let mut rng = Rng::new(s);
     let nodes = *rng.pick(&[1usize, 1, 2, 2, 3]);
-    let mut g = GenCfg { tasks: 2 + rng.below(5) as u8, props: 1, ts_policy: rng.below(4) as u8, ts_counter: 0 };
+    let mut g = GenCfg { ghosts: false, tasks: 2 + rng.below(5) as u8, props: 1, ts_policy: rng.below(4) as u8, ts_counter: 0 };
     let mut scripts = Vec::new();
     for _ in 0..nodes {
         let len = 3 + rng.usize_below(14);
@@ -2097,7 +2110,7 @@ pub fn gen_c20(seed: u64, i: u64, _thorough: bool) -> Value {
     let mut rng = Rng::new(s);
     let nodes = *rng.pick(&[1usize, 2, 2, 3]);
     let tasks = 2 + rng.below(5) as u8;
-    let mut g = GenCfg { tasks, props: 2, ts_policy: rng.below(4) as u8, ts_counter: 0 };
+    let mut g = GenCfg { ghosts: false, tasks, props: 2, ts_policy: rng.below(4) as u8, ts_counter: 0 };
     // the instants at which replicas will expire
     let at0 = rng.range(-30, 400) * DAY + rng.range(0, DAY - 1);
     let modified_val = |rng: &mut Rng, at: i64| -> Option<String> {
@@ -2189,7 +2202,7 @@ pub fn gen_c19(seed: u64, i: u64, _thorough: bool) -> Value {
     let mut rng = Rng::new(s);
     let nodes = *rng.pick(&[1usize, 1, 2]);
     let tasks = 1 + rng.below(4) as u8;
-    let mut g = GenCfg { tasks, props: 2, ts_policy: 0, ts_counter: 0 };
+    let mut g = GenCfg { ghosts: false, tasks, props: 2, ts_policy: 0, ts_counter: 0 };
     let clock_policy = rng.below(4);
     let mut at = rng.range(-400, 400) * DAY;
     const TAGS: &[&str] = &["next", "work", "a:b", "+x", "1st", "PENDING", "WAITING", "FOO", "üni", "x y", "", "ok-1", "Home"];
@@ -2607,7 +2620,7 @@ pub fn gen_c06(seed: u64, i: u64, thorough: bool) -> Value {
     let s = mix(seed, "C06", i);
     let mut rng = Rng::new(s);
     let nodes = *rng.pick(&[1usize, 2, 2]);
-    let mut g = GenCfg { tasks: 2 + rng.below(3) as u8, props: 1 + rng.below(2) as u8, ts_policy: rng.below(4) as u8, ts_counter: 0 };
+    let mut g = GenCfg { ghosts: false, tasks: 2 + rng.below(3) as u8, props: 1 + rng.below(2) as u8, ts_policy: rng.below(4) as u8, ts_counter: 0 };
     let mut scripts = Vec::new();
     for _ in 0..nodes {
         let len = 1 + rng.usize_below(6);
@@ -2932,9 +2945,18 @@ pub fn gen_c03(seed: u64, i: u64, _thorough: bool) -> Value {
                 continue;
             }
             for t in 0..tasks {
-                match rng.below(10) {
+                match rng.below(12) {
                     0..=1 => {}
                     2 => b.push(Intent::Delete { t }),
+                    10 => {
+                        // create (if need be), perhaps touch, and delete again within the batch
+                        b.push(Intent::Create { t });
+                        if rng.chance(1, 2) {
+                            b.push(Intent::Set { t, p: rng.below(props as u64) as u8, ts: rng.range(-3, 3), big: false });
+                        }
+                        b.push(Intent::Delete { t });
+                    }
+                    11 => b.push(Intent::Ghost { del: rng.chance(1, 3), ts: rng.range(-3, 3) }),
                     _ => {
                         // create (a no-op when the task exists) then updates of distinct properties
                         if rng.chance(2, 3) {
@@ -3155,6 +3177,9 @@ fn trunc(s: &str) -> String {
 // ---- generation --------------------------------------------------------------------------------
 
 struct GenCfg {
+    /// may the scripts contain operations on a task that exists nowhere (not in undo scenarios:
+    /// undo is only specified for valid operations)
+    ghosts: bool,
     tasks: u8,
     props: u8,
     ts_policy: u8,
@@ -3188,6 +3213,11 @@ fn gen_intents(rng: &mut Rng, g: &mut GenCfg, max: usize, allow_undo_point: bool
         let x = rng.below(100);
         v.push(if x < 25 {
             Intent::Create { t }
+        } else if x < 27 && g.ghosts {
+            Intent::Ghost { del: rng.chance(1, 3), ts: gen_ts(rng, g) }
+        } else if x < 31 {
+            // an empty value (as tags and dependencies have), or one several tasks share
+            Intent::Key { t, key: prop_name(p), val: Some(rng.pick(&["", "", "shared"]).to_string()), ts: gen_ts(rng, g) }
         } else if x < 70 {
             Intent::Set { t, p, ts: gen_ts(rng, g), big: false }
         } else if x < 80 {
@@ -3206,7 +3236,7 @@ pub fn gen_c01(seed: u64, i: u64, thorough: bool) -> Value {
     let mut rng = Rng::new(s);
     let big_run = rng.chance(1, if thorough { 20 } else { 50 });
     let nodes = if big_run { *rng.pick(&[2usize, 2, 3]) } else { *rng.pick(&[1usize, 2, 2, 2, 3, 3, 3, 4, 5]) };
-    let mut g = GenCfg { tasks: 1 + rng.below(4) as u8, props: 1 + rng.below(4) as u8, ts_policy: rng.below(4) as u8, ts_counter: 0 };
+    let mut g = GenCfg { ghosts: true, tasks: 1 + rng.below(4) as u8, props: 1 + rng.below(4) as u8, ts_policy: rng.below(4) as u8, ts_counter: 0 };
     let mut scripts = Vec::new();
     for _ in 0..nodes {
         let len = 2 + rng.usize_below(if big_run { 5 } else { 14 });
@@ -3268,7 +3298,7 @@ pub fn gen_c02(seed: u64, i: u64, thorough: bool) -> Value {
     let s = mix(seed, "C02", i);
     let mut rng = Rng::new(s);
     let nodes = *rng.pick(&[2usize, 2, 3, 3, 3, 4]);
-    let mut g = GenCfg { tasks: 1 + rng.below(3) as u8, props: 1 + rng.below(3) as u8, ts_policy: rng.below(4) as u8, ts_counter: 0 };
+    let mut g = GenCfg { ghosts: true, tasks: 1 + rng.below(3) as u8, props: 1 + rng.below(3) as u8, ts_policy: rng.below(4) as u8, ts_counter: 0 };
     let mut scripts = Vec::new();
     for _ in 0..nodes {
         let len = 2 + rng.usize_below(8);
